@@ -119,6 +119,7 @@ type oracle struct {
 	stats  map[string]int
 	order  []string
 	nfail  int
+	perKey map[string]int
 	nsamp  int
 	checks int
 }
@@ -128,7 +129,11 @@ func newOracle(t testing.TB, prop string) *oracle {
 }
 func (q *oracle) fail(key, detail string) {
 	q.nfail++
-	if q.nfail <= 200 {
+	if q.perKey == nil {
+		q.perKey = map[string]int{}
+	}
+	q.perKey[key]++
+	if q.perKey[key] <= 3 && len(q.perKey) <= 300 {
 		q.o.line("FAIL\t%s\t%s", key, detail)
 	}
 }
